@@ -36,6 +36,7 @@ def run(facts, rep):
     d3_concurrency(facts, rep)
     d4_rejected(facts, rep)
     d5_wait(facts, rep)
+    d6_reservation(facts, rep)
 
 
 def d1_handlers(facts, rep):
@@ -277,3 +278,190 @@ def d5_wait(facts, rep):
         ok = any(calls(g, pred=lambda d: d['n'] == 'wait') for g in inner) and any(calls_named(g, ('execute',)) for g in inner)
         rep.ob('D5', 'K4', fn, 'wait_for_all waits on the graph wait context inside the graph arena', ok, 'wait_for_all no longer waits in the arena')
     rep.floor('D5', 12, 'wait accounting')
+
+
+
+# ---------------------------------------------------------------------------------------------------------------
+# D6: a reserved item belongs to the successor that reserved it until that successor consumes or releases it
+# ---------------------------------------------------------------------------------------------------------------
+ITEM_PRIMITIVES = ('destroy_front', 'destroy_back', 'destroy_item', 'reserve_item', 'move_item', 'fetch_item')
+# operation kinds whose handler may touch items without asking about a reservation, with the reason
+RESERVATION_EXEMPT = {
+    'con_res': 'issued by the holder of the reservation: completes it',
+    'rel_res': 'issued by the holder of the reservation: gives it back',
+    'put_item': 'adds an item; never removes one',
+    'reg_succ': 'touches the successor list only',
+    'rem_succ': 'touches the successor list only',
+}
+
+
+def mentions_reservation(fn, s):
+    for x in fn.subtree(s):
+        n = fn.nodes[x]
+        if n.get('k') == 'member' and n.get('n') == 'my_reserved':
+            return True
+        if n.get('k') == 'enum' and n.get('n') == 'reserved_item':
+            return True
+    return False
+
+
+def d6_reservation(facts, rep):
+    """For every buffer-node handler (buffer/queue/sequencer/priority_queue instantiations) and every operation kind that
+    is not exempt: on every inter-procedural path from the operation's case label to a primitive that destroys, moves or
+    reserves a buffered item, a branch has consulted the reservation state (my_reserved / the reserved_item slot state).
+    Necessary condition of "a message is delivered exactly once": without it a reserved item is also handed to a second
+    consumer (try_get, forwarder, second reservation).  The polarity of the test is not decided."""
+    from engine.rules import dataflow_must
+    scope = set()
+    for p, cs in facts.classes.items():
+        for c in cs:
+            if p == D2 + 'buffer_node' or (D2 + 'buffer_node') in c['allbases']:
+                scope.add(p)
+                scope |= set(b for b in c['allbases'] if 'item_buffer' in b)
+    handlers = [fn for fn in facts.fns.values() if fn.cls in scope and fn.p.endswith('::handle_operations_impl')]
+    if not handlers:
+        raise AnalysisBroken('no buffer_node::handle_operations_impl instantiation found')
+
+    memo = {}
+
+    def consult_edges(fn):
+        out = set()
+        for b, blk in fn.blocks.items():
+            t = blk.get('term')
+            if t and 'c' in t and len(blk['succ']) == 2 and mentions_reservation(fn, t['c']):
+                out.add((b, 0))
+                out.add((b, 1))
+        return out
+
+    def depth(cls):
+        return max([len(c['allbases']) for c in facts.classes.get(cls, [])] or [0])
+
+    def targets(fn, e, kind_cls):
+        """callees inside the buffer classes; a virtual call on the node dispatches to the final overrider of the node
+        class the handler was instantiated for (handle_operations_impl<derived_type>)"""
+        u = elem_fn_uid(e, fn)
+        if not u:
+            return []
+        if isinstance(e, int) and fn.nodes[e].get('virt'):
+            line = set([kind_cls])
+            for c in facts.classes.get(kind_cls, []):
+                line |= set(c['allbases'])
+            c = [facts.fns[x] for x in [u] + list(facts.overriders(u)) if x in facts.fns and facts.fns[x].cls in line]
+            if not c:
+                return []
+            best = max(depth(g.cls) for g in c)
+            return [g for g in c if depth(g.cls) == best]
+        return [facts.fns[u]] if u in facts.fns and facts.fns[u].cls in scope else []
+
+    def analyse(fn, kind_cls, stack=()):
+        """entered WITHOUT a consulted reservation: returns (list of (chain, line) unconsulted primitive sites,
+        must-consulted at every return)"""
+        if (fn.u, kind_cls) in memo:
+            return memo[(fn.u, kind_cls)]
+        if fn.u in stack:
+            return ([], False)
+        ce = consult_edges(fn)
+        bad = []
+        post = {}       # call element -> callee guarantees consultation on return
+
+        def tr_elem(st, pos, e):
+            if not isinstance(e, int) or fn.nodes[e].get('k') != 'call':
+                return st
+            d = fn.callee(e) or {}
+            if 'C' not in st:
+                if d.get('n') in ITEM_PRIMITIVES and d.get('cls') in scope:
+                    bad.append(([fn.q], fn.nodes[e].get('ln'), d.get('n')))
+                else:
+                    allc = True
+                    ts = targets(fn, e, kind_cls)
+                    for g in ts:
+                        vb, cons = analyse(g, kind_cls, stack + (fn.u,))
+                        for chain, ln, prim in vb:
+                            bad.append(([fn.q + ':%s' % fn.nodes[e].get('ln')] + chain, ln, prim))
+                        allc = allc and cons
+                    if ts and allc:
+                        return st | {'C'}
+            return st
+
+        def tr_edge(st, b, si):
+            return st | {'C'} if (b, si) in ce else st
+        before, outb = dataflow_must(fn, tr_elem, tr_edge)
+        # state at return: the exit block's incoming states
+        ex_states = [outb[b] for b in fn.blocks if b in outb and fn.exit in [x for x in fn.blocks[b]['succ'] if x is not None]]
+        cons = bool(ex_states) and all('C' in st for st in ex_states)
+        # the fix-point may have visited a call several times: de-duplicate
+        uniq = {}
+        for chain, ln, prim in bad:
+            uniq[(tuple(chain), ln, prim)] = (chain, ln, prim)
+        memo[(fn.u, kind_cls)] = (list(uniq.values()), cons)
+        return memo[(fn.u, kind_cls)]
+
+    n = 0
+    node_kinds = sorted(p for p in scope if 'item_buffer' not in p)
+    if len(node_kinds) < 4:
+        raise AnalysisBroken('D6: expected buffer, queue, sequencer and priority_queue node classes, found %s' % node_kinds)
+    pairs = []
+    for kind_cls in node_kinds:
+        line = set([kind_cls])
+        for c in facts.classes.get(kind_cls, []):
+            line |= set(c['allbases'])
+        hops = [fn for fn in facts.fns.values() if fn.cls in line and fn.p.endswith('::handle_operations')]
+        if not hops:
+            raise AnalysisBroken('D6: %s has no handle_operations' % kind_cls)
+        best = max(depth(g.cls) for g in hops)
+        seen_impl = set()
+        for hop in hops:
+            if depth(hop.cls) != best:
+                continue
+            for pos, cs, cn, cd in calls(hop):
+                g = facts.fns.get(cn.get('fn'))
+                if g is not None and g.p.endswith('::handle_operations_impl') and g.p not in seen_impl:
+                    # one representative instantiation per (node kind, element type) is enough: all are analysed
+                    pairs.append((kind_cls, g))
+    if not pairs:
+        raise AnalysisBroken('D6: no handle_operations -> handle_operations_impl call found')
+    for kind_cls, h in pairs:
+        label = kind_cls.replace(D2, '')
+        for b, blk in h.blocks.items():
+            t = blk.get('term')
+            if not t or t.get('k') != 'SwitchStmt':
+                continue
+            for si, lab in h.switch_edges(b):
+                if not lab or 'case' not in lab:
+                    continue
+                kind = lab.get('n')
+                if kind in RESERVATION_EXEMPT:
+                    continue
+                # calls in the case body (until the break leaves the switch: the blocks dominated by the case label)
+                start = blk['succ'][si]
+                case_blocks = set()
+                work = [start]
+                while work:
+                    x = work.pop()
+                    if x in case_blocks:
+                        continue
+                    case_blocks.add(x)
+                    for sx in h.blocks[x]['succ']:
+                        # stay inside the case: stop at the join block after the switch (it has a predecessor outside)
+                        if sx is not None and h.blocks[sx].get('label') is None and all(p in case_blocks or p == x for p in h.preds().get(sx, [])):
+                            work.append(sx)
+                viol = []
+                ncalls = 0
+                for cb in case_blocks:
+                    for e in h.blocks[cb]['e']:
+                        if isinstance(e, int) and h.nodes[e].get('k') == 'call':
+                            for g in targets(h, e, kind_cls):
+                                ncalls += 1
+                                vb, cons = analyse(g, kind_cls)
+                                for chain, ln, prim in vb:
+                                    viol.append('%s -> %s() at line %s' % (' -> '.join(chain), prim, ln))
+                if ncalls == 0:
+                    continue
+                n += 1
+                rep.ob('D6', 'K4', h, 'operation %s of %s consults the reservation before it destroys, moves or reserves an item' % (kind, label),
+                       not viol, 'an item can leave the buffer although another successor holds a reservation on it (delivered twice, '
+                       'and the reservation is then completed on a slot that is gone): ' + '; '.join(sorted(set(viol))[:2]),
+                       key_extra='%s/%s' % (label, kind))
+    if n == 0:
+        raise AnalysisBroken('D6: no non-exempt operation kinds found in the buffer handlers')
+    rep.floor('D6', 9, 'buffer operation kinds x node classes')
